@@ -419,6 +419,13 @@ def applyOp (toks : List String) (w : World ByteArray) : Except Err (World ByteA
     (match alookup w.idx (unhex sp) with
      | some stg => .ok { w with idx := setStage w.idx (unhex sp) { stg with cmd := unhex cmd } }
      | none => .error .unknownStage, #[])
+  | ["setskip", sp, ap] =>
+    -- the user edits a stage file: the output `ap` becomes skip-cache (checksum and the rest stay)
+    (match alookup w.idx (unhex sp) with
+     | some stg =>
+       let stg' : Stage := { stg with outputs := stg.outputs.map (fun a => if a.path == unhex ap then { a with skip := true } else a) }
+       .ok { w with idx := setStage w.idx (unhex sp) stg' }
+     | none => .error .unknownStage, #[])
   | "order" :: dir :: names =>
     -- put the entries of a directory into the given (real readdir) order
     let comps := Path.comps (unhex dir)
